@@ -154,6 +154,7 @@ DEPENDS = {
     "C06": ["C05"],               # the cross-thread clause of flush_log rests on the timestamp-ordering mechanism
     "C07": ["C03"],               # the exit drain uses the hand-over chain
     "C08": ["C01"],               # 'delivered intact and in order' rests on the bounded queue
+    "C10": ["C06"],               # 'disturbs nothing else' includes the flush guarantee of the healthy sinks
     "C11": ["C01"],               # 'a statement that fits the current buffer' is decided by the bounded queue's space guard
     "C15": ["C14"],               # time rotation renames/names/bounds files through the same _rotate_files machinery as size rotation
 }
